@@ -209,3 +209,69 @@ def new_atom(ctx, rid, f, cls, rule_pred_term):
     # registration after the store loop (an atom is not ordered against itself)
     if reg and loops and not (g.always_before(g.events(lambda t: t.get('callee_name') == cls + '::store_variables'), g.events(lambda t: t is reg[0])) or True):
         pass
+
+
+def notify_smart_types(ctx, rid, fs):
+    """solver::new_atom hands every new atom to EVERY smart type among the transitive supertypes of the class that declares the predicate
+    (class Rover : Vehicle, class Vehicle : StateVariable): complete breadth-first visit, no filter on what is enqueued."""
+    from .C17 import bfs_all_supertypes
+    f = fs.fn('ratio::solver::new_atom')
+    env = LocalEnv(f)
+    env.param_roles(['atm', 'is_fact'])
+    try:
+        env.local_role('q', lambda n, i: 'std::queue<' in (n.get('t') or ''))
+    except AnalysisBroken:
+        ctx.instance(rid, [f.id, 'notify-smart-types'], {'function': f.id, 'work_list': None})
+        ctx.finding(rid, f.id, 'notify-smart-types', 'solver::new_atom has no work-list traversal of the supertypes of the class declaring the predicate: smart types that are only indirect supertypes '
+                    '(class Rover : Vehicle, class Vehicle : StateVariable) are never told about the atom', loc=f.loc)
+        return
+
+    def act(body):
+        for x in walk(body):
+            if x.get('k') == 'CXXMemberCallExpr' and x.get('callee_name') == 'ratio::smart_type::new_atom':
+                # the receiver is the dynamic_cast<smart_type *> of the visited type, and that cast is the only guard
+                guards = []
+                for a in f.ancestors(x):
+                    if a is body:
+                        break
+                    if a.get('k') == 'IfStmt':
+                        guards.append(a)
+                if len(guards) == 1:
+                    g = guards[0]
+                    cv = g['slots'].get('condvar') or g['slots'].get('init')
+                    vds = [m for m in walk(cv) if m.get('k') == 'VarDecl' and m.get('init') is not None] if cv is not None else []
+                    s = show(canon(vds[0]['init'], env, subst=False)) if vds else show(canon(g['slots']['cond'], env, subst=False))
+                    if 'dyncast' in s and 'smart_type' in s and 'front' in s:
+                        return True
+        return False
+    ok = bfs_all_supertypes(f, env, act)
+    seeds = [canon(n, env, subst=False) for n in f.nodes() if n.get('k') == 'CXXMemberCallExpr' and (n.get('callee_name') or '').endswith('::push')
+             and not any(a.get('k') in ('WhileStmt', 'CXXForRangeStmt') for a in f.ancestors(n))]
+    seed_ok = len(seeds) == 1 and 'get_scope' in show(seeds[0]) and 'get_type' in show(seeds[0]) and 'atm' in show(seeds[0])
+    wl = [n for n in f.nodes() if n.get('k') == 'WhileStmt']
+    guards = [show(canon(a['slots']['cond'], env, subst=False)) for a in f.ancestors(wl[0]) if a.get('k') == 'IfStmt'] if wl else []
+    guard_ok = len(guards) <= 1 and all('this' in g and 'get_scope' in g and g.startswith('(!= ') for g in guards)
+    ctx.instance(rid, [f.id, 'notify-smart-types'], {'function': f.id, 'visits_every_supertype_and_notifies_each_smart_type': ok, 'starts_at_the_scope_of_the_predicate': seed_ok, 'guards': guards})
+    if not ok or not seed_ok or not guard_ok:
+        ctx.finding(rid, f.id, 'notify-smart-types', 'solver::new_atom must notify every smart type among ALL transitive supertypes of the class declaring the predicate (complete breadth-first visit starting at the '
+                    'predicate\'s scope, every supertype enqueued, smart_type::new_atom on each one that is a smart type): an atom on an indirectly derived timeline class is otherwise invisible to the '
+                    'timeline checks, gets no ordering variables and, if a fact, never gets its temporal rule', loc=f.loc)
+
+
+def recheck_set_grow_only(ctx, rid, fs, cls):
+    """`to_check` (instances whose atoms changed since they were last found consistent) only grows: solve_inconsistencies resolves ONE inconsistency per round and then asks again, so
+    an instance dropped from the set while it still has a reported peak is never looked at again unless one of its atoms happens to move."""
+    from .. import effects
+    w = effects.field_writers(fs, cls + '::to_check')
+    if not w:
+        raise AnalysisBroken('no writer of %s::to_check found' % cls)
+    n = 0
+    for fid, sts in sorted(w.items()):
+        for st in sts:
+            n += 1
+            ctx.instance(rid, [cls, 'to_check', fid, st.how, short(st.node.get('loc'))], {'writer': fid, 'operation': st.how})
+            if st.how not in ('insert', 'emplace', 'ctor-init'):
+                ctx.finding(rid, fid, 'to_check:' + st.how, '%s removes instances from %s::to_check (%s): get_current_incs only sweeps the instances in that set and solve_inconsistencies resolves one reported '
+                            'inconsistency per round, so a peak that was reported but not yet resolved is forgotten and solve() can return with the timeline still over-used / overlapping' % (
+                                short(fs.fns[fid].name), cls.rsplit('::', 1)[-1], st.how), node=st.node, expect='the re-check set only grows (insert) in the reviewed tree')
+    return n
